@@ -176,6 +176,50 @@ def h_accept_any(E, mode, explain, N, strip_all=False, clean_spaces=True):
     return 'ok'
 
 
+SEQ_GRADERS = {
+    'min-silent-wrongmsg': dict(accept_any=True, min_length=2, explain_minimums=None, wrong_msg='nope'),
+    'min-silent': dict(accept_any=True, min_length=2, explain_minimums=None),
+    'pattern-silent': dict(answers='ab', validation_pattern='[a-c]+', explain_validation=None),
+    'words-explained': dict(accept_any=True, min_words=2, explain_minimums='msg'),
+    'pattern-silent-wrongmsg': dict(answers='ab', validation_pattern='[a-c]+', explain_validation=None, wrong_msg='try again'),
+}
+
+
+def h_refusal_sequence(E, seq, N):
+    """several StringGraders called one after the other in one process: what a refusal reports is a function of that grader's own options
+    and that input only (silent refusal: msg '' unless the grader's own wrong_msg; explained refusal: the explanation)"""
+    from mitxgraders import StringGrader
+    import mitxgraders.stringgrader as SG
+    import voluptuous.schema_builder as VS
+    import voluptuous.validators as VV
+    out = []
+    with shadow(SG, re=rx.ReShim(), str=sym_str), shadow(VS, isinstance=sym_isinstance), shadow(VV, isinstance=sym_isinstance):
+        graders = {k: StringGrader(**SEQ_GRADERS[k]) for k in set(seq)}
+        for i, k in enumerate(seq):
+            cfg = SEQ_GRADERS[k]
+            s = fresh_str(E, 's%d' % i, N, alphabet('ab é'))
+            r = graders[k](None, s)
+            cleaned = norm(_as_chars(s), True, True, False, True)
+            if 'min_length' in cfg:
+                accept = len(cleaned) >= 2
+            elif 'min_words' in cfg:
+                accept = 2 <= _words(cleaned)
+            else:
+                accept = sand(len(cleaned) == 2, *([cleaned[0] == 'a', cleaned[1] == 'b'] if len(cleaned) == 2 else []))
+            accept = bool(accept)
+            E.check('accepted-iff-own-rule-met', (r['ok'] is True) == accept)
+            if accept:
+                E.check('accepted-message-empty', r['msg'] == '' and r['grade_decimal'] == 1)
+            else:
+                want = cfg.get('wrong_msg', '')
+                if cfg.get('explain_minimums') == 'msg':
+                    E.check('refusal-reports-own-configuration-only', r['msg'].startswith('Your response is too short') and r['grade_decimal'] == 0)
+                else:
+                    E.check('refusal-reports-own-configuration-only', r['msg'] == want and r['grade_decimal'] == 0)
+            out.append(str(r['ok']))
+    return ','.join(out)
+
+
 PATTERNS = [r'cat|dog', r'(cat|dog)', r'[a-c]+', r'\d\d', r'x?y', r'(ab)*', r'a.b', r'ab$', r'^ab', r'a|b|cd']
 VALPHA = alphabet('abcdtogxy 01')
 
@@ -273,6 +317,13 @@ def harnesses(tier):
             add(h_accept_any, 'accept', dict(mode=mode, explain=explain, N=4 if T else 3), 'all Unicode strings, symbolic minimums')
         add(h_accept_any, 'accept', dict(mode=mode, explain='msg', N=4 if T else 3, strip_all=True, clean_spaces=False), 'all Unicode strings, symbolic minimums, strip_all')
         add(h_accept_any, 'accept', dict(mode=mode, explain=None, N=3, strip_all=False, clean_spaces=False), 'all Unicode strings, symbolic minimums, clean_spaces off')
+    names = sorted(SEQ_GRADERS)
+    for a in names:
+        for b in names:
+            hs.append(Harness(pname('refusal_sequence', first=a, then=b), h_refusal_sequence, ((a, b), 2), FUNCS, 'two calls, strings of length <= 2 over {a, b, space, e-acute}', STUBS))
+    if T:
+        for trio in itertools.product(names, repeat=3):
+            hs.append(Harness(pname('refusal_sequence', seq='+'.join(trio)), h_refusal_sequence, (trio, 2), FUNCS, 'three calls, strings of length <= 2', STUBS))
     for pi in range(len(PATTERNS)):
         add(h_validation_language, 'validation_language', dict(p=pi), 'pattern %r, no length bound' % PATTERNS[pi], validate=False)
         for mode, explain in (('any', 'err'), ('any', None), ('match', 'msg')):
